@@ -3,7 +3,7 @@ import ast
 from ..core import AnalysisError, norm, dotted, call_name, walk_no_nested, is_self_attr
 from ..consteval import Interp, Obj
 from ..formula import check_formula, compare
-from .. import flow
+from .. import flow, roles
 from .pred_common import rule_pred
 
 LEVEL = 'other'
@@ -61,27 +61,64 @@ def rule_total(run):
                       '(col_mapping[destcol], layer_mapping[destlayer])', 'source column/layer are not looked up in the column and layer mappings',
                       node=[n for n in ast.walk(lp[0]) if isinstance(n, ast.Assign) and norm(n.targets[0]) == '(sourcecol, sourcelayer)'][0].value
                       if [n for n in ast.walk(lp[0]) if isinstance(n, ast.Assign) and norm(n.targets[0]) == '(sourcecol, sourcelayer)'] else ast.parse('None', mode='eval').body)
-        # atmosphere target blocks -> source atmosphere layer (+ atmosphere column for a single atmosphere block)
-        atm = [n for n in lp[0].body if isinstance(n, ast.If) and compare(n.test, 'destlayer == geo.layerlist[0].name') == 'equal']
+        # atmosphere target blocks -> source atmosphere layer (+ atmosphere column for a single atmosphere block).
+        # variables by role: G = target geometry parameter; DL/DC = layer/column part of the target name (taken by G);
+        # SL/SC = what the layer/column mapping gives for them
+        G = bm.params[1]
+        role = {}
+        for nm, v, st in roles.assignments(lp[0]):
+            if isinstance(v, ast.Call) and isinstance(v.func, ast.Attribute) and v.func.attr in ('layer_name', 'column_name') and \
+               v.args and isinstance(v.args[0], ast.Name) and v.args[0].id == dest:
+                role['DL' if v.func.attr == 'layer_name' else 'DC'] = nm
+                role['by_' + nm] = norm(v.func.value)
+        maps = {}
+        for nm, v, st in roles.assignments(bm.node):
+            if isinstance(v, ast.Call) and isinstance(v.func, ast.Attribute) and v.func.attr in ('layer_mapping', 'column_mapping') and \
+               isinstance(v.func.value, ast.Name) and v.func.value.id == 'self':
+                maps[nm] = v.func.attr
+        for nm, v, st in roles.assignments(lp[0]):
+            if isinstance(v, ast.Subscript) and isinstance(v.value, ast.Name) and v.value.id in maps:
+                role['SL' if maps[v.value.id] == 'layer_mapping' else 'SC'] = nm
         key = 'mulgrid.block_mapping :: atmosphere blocks map to the source atmosphere'
-        if len(atm) == 1:
+
+        def atm_name_of(e):
+            """root variable r of `r.layerlist[0].name`"""
+            if isinstance(e, ast.Attribute) and e.attr == 'name' and isinstance(e.value, ast.Subscript) and \
+               isinstance(e.value.value, ast.Attribute) and e.value.value.attr == 'layerlist' and isinstance(e.value.value.value, ast.Name) \
+               and isinstance(e.value.slice, ast.Constant) and e.value.slice.value == 0:
+                return e.value.value.value.id
+            return None
+        atm, wrong = [], []
+        if all(k in role for k in ('DL', 'DC', 'SL', 'SC')):
+            for n in lp[0].body:
+                if isinstance(n, ast.If) and isinstance(n.test, ast.Compare) and len(n.test.ops) == 1 and isinstance(n.test.ops[0], ast.Eq):
+                    l, r = n.test.left, n.test.comparators[0]
+                    for x, y in ((l, r), (r, l)):
+                        if isinstance(x, ast.Name) and x.id == role['DL'] and atm_name_of(y) is not None:
+                            (atm if atm_name_of(y) == G else wrong).append(n)
+        if wrong and not atm:
+            run.violated(key, 'the layer part of a *target* block name is compared with `%s`, the atmosphere layer name of another geometry '
+                         '(`%s` is the target): when the two geometries name their atmosphere layer differently, target atmosphere '
+                         'blocks are mapped to underground blocks of the source (or raise KeyError)' % (norm(wrong[0].test), G), where=bm.where(wrong[0]))
+        elif len(atm) == 1:
             b = atm[0].body
-            ok1 = any(isinstance(s, ast.Assign) and norm(s.targets[0]) == 'sourcelayer' and norm(s.value) == 'self.layerlist[0].name' for s in b)
-            ok2 = any(isinstance(s, ast.If) and compare(s.test, 'self.atmosphere_type == 0') == 'equal' and
-                      any(isinstance(x, ast.Assign) and norm(x) == 'sourcecol = self.atmosphere_column_name' for x in s.body) for s in b)
+            SL, SC = role['SL'], role['SC']
+            ok1 = any(isinstance(s_, ast.Assign) and norm(s_.targets[0]) == SL and atm_name_of(s_.value) == 'self' for s_ in b)
+            ok2 = any(isinstance(s_, ast.If) and compare(s_.test, 'self.atmosphere_type == 0') == 'equal' and
+                      any(isinstance(x, ast.Assign) and norm(x.targets[0]) == SC and norm(x.value) == 'self.atmosphere_column_name' for x in s_.body) for s_ in b)
             if ok1 and ok2: run.ok(key, where=bm.where(atm[0]))
             elif not ok1: run.violated(key, 'target atmosphere blocks are not given the source atmosphere layer', where=bm.where(atm[0]))
             else: run.violated(key, 'with a single source atmosphere block the source atmosphere column name is not used', where=bm.where(atm[0]))
             # correction below ground
-            corr = [s for s in atm[0].orelse if isinstance(s, ast.If)]
+            corr = [s_ for s_ in atm[0].orelse if isinstance(s_, ast.If)]
             k2 = 'mulgrid.block_mapping :: above-surface source block moved to the column\'s surface layer'
             if len(corr) == 1:
-                good = any(isinstance(x, ast.Assign) and norm(x.targets[0]) == 'sourcelayer' and
-                           compare(x.value, 'self.column_surface_layer(self.column[sourcecol]).name') == 'equal' for x in corr[0].body)
+                good = any(isinstance(x, ast.Assign) and norm(x.targets[0]) == SL and
+                           compare(x.value, 'self.column_surface_layer(self.column[%s]).name' % SC) == 'equal' for x in corr[0].body)
                 run.check(good, k2, 'the corrected layer is not column_surface_layer(column).name', where=bm.where(corr[0]))
             else: run.unknown(k2, 'correction not found', where=bm.where(atm[0]))
         else:
-            run.unknown(key, 'atmosphere branch not recognised', where=bm.where(lp[0]))
+            run.unknown(key, 'atmosphere branch not recognised (roles %s)' % sorted(role), where=bm.where(lp[0]))
     cm = prog.func('mulgrids.mulgrid.column_mapping')
     lp = _loop_over(cm, 'geo.columnlist')
     key = 'mulgrid.column_mapping :: every target column mapped'
